@@ -87,6 +87,7 @@ static char *get_user_command (void);
 static char *first_cmd_in_buf (interactive_t *);
 static int cmd_in_buf (interactive_t *);
 static void next_cmd_in_buf (interactive_t *);
+static void reframe_single_char_input (interactive_t *);
 static void print_prompt (interactive_t *);
 static void telnet_neg (char *, char *);
 static void query_addr_name (object_t *);
@@ -2323,6 +2324,51 @@ static void next_cmd_in_buf (interactive_t * ip) {
 }				/* next_cmd_in_buf() */
 
 /**
+ *  @brief Frame input that arrived while single-char mode was on.
+ *  In that mode copy_chars() keeps CR and LF as data, so a line typed ahead of a get_char() prompt sits in the
+ *  buffer without a terminator. When the mode ends, frame what is still buffered the way line mode would have
+ *  framed it on arrival (CR LF becomes the " \b\0" line end, a lone CR is dropped); otherwise the line is not
+ *  served until a later line arrives and is then merged with it. Nothing happens when no CR is buffered or when
+ *  the framed text would not fit.
+ */
+static void reframe_single_char_input (interactive_t * ip) {
+  char tmp[MAX_TEXT];
+  ptrdiff_t from, to = 0;
+
+  for (from = ip->text_start; from < ip->text_end; from++)
+    if (ip->text[from] == '\r')
+      break;
+  if (from >= ip->text_end)
+    return;
+
+  for (from = ip->text_start; from < ip->text_end; from++)
+    {
+      char c = ip->text[from];
+
+      if (to + 3 >= MAX_TEXT - 1)
+        return;                 /* no room: leave the buffer as it is */
+      if (c == '\r')
+        {
+          if (from + 1 < ip->text_end && ip->text[from + 1] == '\n')
+            {
+              tmp[to++] = ' ';
+              tmp[to++] = '\b';
+              tmp[to++] = '\0';
+              from++;
+            }
+          continue;
+        }
+      tmp[to++] = c;
+    }
+  memcpy (ip->text, tmp, to);
+  ip->text[to] = '\0';
+  ip->text_start = 0;
+  ip->text_end = to;
+  if (cmd_in_buf (ip))
+    ip->iflags |= CMD_IN_BUF;
+}
+
+/**
  *  @brief Remove an interactive user immediately.
  */
 void remove_interactive (object_t * ob, int dested) {
@@ -2478,6 +2524,7 @@ int call_function_interactive (interactive_t * i, char *str) {
     {
       i->iflags &= ~SINGLE_CHAR;
       set_telnet_single_char (i, 0);
+      reframe_single_char_input (i);
     }
 
   /* Push input FIRST.
